@@ -1065,7 +1065,48 @@ def e_isfile(it, args, kwargs, node):
     return SymV(it.fresh('isfile'), 'bool')
 
 
+
+class NamedTupleClass(AVal):
+    def __init__(self, name, fields):
+        self.name = name
+        self.fields = list(fields)
+
+    def __repr__(self):
+        return f'<namedtuple {self.name}>'
+
+
+def e_namedtuple(it, args, kwargs, node):
+    name = it.py_key(args[0]) if args else 'nt'
+    f = it.resolve(args[1]) if len(args) > 1 else kwargs.get('field_names')
+    fields = None
+    if isinstance(f, SeqV) and f.is_lit():
+        fields = f.lit_value().replace(',', ' ').split()
+    elif isinstance(f, (ListV, TupleV)) and getattr(f, 'items', None) is not None:
+        fields = [it.py_key(x) for x in f.items]
+    if not fields or None in fields:
+        it.note_unknown(node, 'namedtuple with non-constant fields')
+        return UnkV('namedtuple')
+    return NamedTupleClass(name, fields)
+
+
+class StructV(AVal):
+    def __init__(self, fmt):
+        self.fmt = fmt
+
+    def __repr__(self):
+        return f'<struct.Struct {self.fmt!r}>'
+
+
+def e_struct_struct(it, args, kwargs, node):
+    fmt = it.resolve(args[0]) if args else None
+    if not (isinstance(fmt, SeqV) and fmt.is_lit()):
+        it.note_unknown(node, 'struct.Struct with non-constant format')
+        return UnkV('Struct')
+    return StructV(fmt)
+
+
 EXT = {
+    'collections.namedtuple': e_namedtuple, 'struct.Struct': e_struct_struct,
     'logging.getLogger': e_getlogger,
     'struct.unpack': e_struct_unpack, 'struct.pack': e_struct_pack, 'struct.calcsize': e_struct_calcsize,
     'binascii.hexlify': e_hexlify, 'binascii.b2a_hex': e_hexlify,
